@@ -29,6 +29,43 @@ pub fn free_port(ip: &str) -> u16 {
     l.local_addr().unwrap().port()
 }
 
+/// a loopback port on which nothing listens and which nobody else can bind while the guard lives
+/// (a bound, non-listening socket: connects are refused)
+pub struct ClosedPort {
+    fd: i32,
+    pub port: u16,
+}
+
+impl ClosedPort {
+    pub fn new() -> ClosedPort {
+        unsafe {
+            let fd = libc::socket(libc::AF_INET, libc::SOCK_STREAM, 0);
+            assert!(fd >= 0, "socket");
+            let mut addr: libc::sockaddr_in = std::mem::zeroed();
+            addr.sin_family = libc::AF_INET as libc::sa_family_t;
+            addr.sin_port = 0;
+            addr.sin_addr.s_addr = u32::from_ne_bytes([127, 0, 0, 1]);
+            let rc = libc::bind(fd, &addr as *const _ as *const libc::sockaddr, std::mem::size_of::<libc::sockaddr_in>() as u32);
+            assert_eq!(rc, 0, "bind");
+            let mut len = std::mem::size_of::<libc::sockaddr_in>() as u32;
+            let rc = libc::getsockname(fd, &mut addr as *mut _ as *mut libc::sockaddr, &mut len);
+            assert_eq!(rc, 0, "getsockname");
+            ClosedPort {
+                fd,
+                port: u16::from_be(addr.sin_port),
+            }
+        }
+    }
+}
+
+impl Drop for ClosedPort {
+    fn drop(&mut self) {
+        unsafe {
+            libc::close(self.fd);
+        }
+    }
+}
+
 pub fn decode_nothing() -> ffi::DecodeLevel {
     ffi::DecodeLevelFields {
         app: ffi::AppDecodeLevel::Nothing,
